@@ -390,6 +390,11 @@ def run(run: Run):
     run.guard('C19.R2', r2, run, src, cg)
     run.guard('C19.R3', r3, run, src)
     borrow(run, 'C19.R4', c18.r2, src)
+    from . import c09
+    run.rule('C19.R6', 'switching the check on takes effect on the next translation: the setter raises the flag on every path, the '
+                       'guard re-translates when any flag is set (shared with C09.R1)')
+    borrow(run, 'C19.R6', c09.r1, src)
+    run.floor('C19.R6', 8)
     from .common import check_mutable_defaults
     run.rule('C19.R5', 'nothing collected for one workbook survives into the report of the next (no mutable default changed or handed out)')
     run.guard('C19.R5', check_mutable_defaults, run, 'C19.R5', src)
